@@ -83,6 +83,13 @@ func (s *Sig) render(tag string) string {
 		} else {
 			stmt = "for (sp = 0; sp < 2; sigX()) { sp++ }"
 		}
+	case "forinit":
+		// ... while the first clause is evaluated
+		if s.What == "next" {
+			stmt = "for (sp = sigN(); sp < 1; sp++) { }"
+		} else {
+			stmt = "for (sp = sigX(); sp < 1; sp++) { }"
+		}
 	case "whilecond":
 		if s.What == "next" {
 			stmt = "while (sigN()) { }"
